@@ -38,7 +38,7 @@ func (c11) ID() string { return "C11" }
 
 func (c11) Plan(tier string) fw.Plan {
 	p := fw.Plan{
-		Batches: 16, Cases: 1200, TimeoutSec: 900, Level: "exploration",
+		Batches: 16, Cases: 3000, TimeoutSec: 900, Level: "exploration",
 		Rule:        "one case = a set of tracked nodes from different producers (basicnode Any/Map/List/kind builders following random build programs, dag-cbor and dag-json decoders into reused builders, bindnode {String:Any}/[Any] bindings, blocks loaded through a LinkSystem (raw and dag-cbor), subset matches on strings/bytes/stream-backed bytes, focused-transform results), each snapshotted by a full read-out right after production, followed by a history of 12 later library operations (re-encode; Copy/AssignNode into other builders that are then extended; explore-all walk; focused transform of the node or of a tree containing it; subset matches read twice; Reset and reuse of the producing builder with similar size hints; further decodes into the same builder; further loads through the same link system; large-bytes readers consumed in different chunkings). After every step every tracked node is read out again and must equal its snapshot. Non-trivial: ≥3 tracked nodes of which one is a container with ≥2 children; distinct by hash of tracked values and step sequence.",
 		Assumptions: []string{"the read-out monitor is the observer; the harness never writes into slices it passed in or got back (it keeps private copies and also checks the library left them alone)"},
 		MinEvents:   []string{"tracked_nodes", "history_steps", "rereads", "step:reset-reuse", "step:assign-extend", "step:transform", "step:subset", "step:load-more", "step:decode-again", "step:walk", "step:encode"},
